@@ -68,7 +68,7 @@ def shrink_candidates(cfg, violation):
 def post_batch(tier, base_seed, results):
     """Thorough tier: gibbs_probabilities / metropolis_hastings_probabilities recomputed COMPILED on visited states."""
     from . import scn_c02
-    out = scn_c02.post_batch(tier, base_seed, results)
+    out = scn_c02.post_batch(tier, base_seed, results, with_callcache=False)
     for v in out.get("violations", []):
         v["message"] = v["message"].replace("gibbs_options / mh_options", "pedigree gibbs / MH probabilities")
     return out
